@@ -226,7 +226,7 @@ fn cases(tier: Tier) -> Vec<Case> {
                 }
                 if yields == 0 {
                     for p in seqs(&alpha, 2) {
-                        v.push(make_case(via, pre, *pclose, feeder, &[p.clone()], true, yields, if tier == Tier::Quick { Some(4) } else { None }));
+                        v.push(make_case(via, pre, *pclose, feeder, &[p.clone()], true, yields, None));
                     }
                 }
             }
@@ -247,7 +247,7 @@ fn cases(tier: Tier) -> Vec<Case> {
                             (Some(_), None) => true,
                             _ => false,
                         };
-                        v.push(make_case(via, pre, false, feeder, &[p.clone()], stops, yields, if tier == Tier::Quick { Some(4) } else { None }));
+                        v.push(make_case(via, pre, false, feeder, &[p.clone()], stops, yields, None));
                     }
                 }
             }
